@@ -7,6 +7,18 @@ props = [json.loads(l) for l in open(f'{V}/properties.jsonl')]
 TECH = "contract-based deductive verification: weakest-precondition/symbolic-execution VCs generated from go/ssa of /repo on every run, discharged by z3 5.1.0 / z3 4.8.12 / cvc5 1.0.3"
 
 CLAIMED = {
+ 'C02': dict(
+   text="Proof level: ConsensusState.ValidateBlock returns nil only if chain id, height = last+1, previous-block id, app hash, receipts hash, tx count, data hash, last-commit hash and validators hash all match the state / the committed content, the proposer is a validator, and (height > 1) the embedded last commit has one entry per validator of the previous set and passes VerifyCommit (per-index tally of validly signed matching precommits > 2/3, see C15); Block.Hash/FillHeader never overwrite a present commitment; finalizeCommit stores and applies only the validated proposal block whose hash equals the +2/3 precommit majority of the commit round, with the seen commit built from exactly that round's precommits; State.SetBlockAndValidators links LastBlockID to the applied header.",
+   note="Assumed: hash functions and reflective encoders (Header.Hash, Data.Hash, Commit.Hash, ValidatorSet.Hash are trusted to be functions of their inputs); the block verifier installed in State is the consensus state's ValidateBlock (naming predicate blockValidFor); BlockStore.SaveBlock/State.ApplyBlock bodies are not examined here; object invariants of vote sets assumed at method entry.",
+   ref="6 (C02)"),
+ 'C04': dict(
+   text="Proof level for the locking rules at every write and emission site: only enterPrecommit, addVote, updateToState and SwitchToConsensus store to LockedRound/LockedBlock/LockedBlockParts (structural, whole package); in enterPrecommit every lock change needs a polka of exactly this round, a new lock is the validated proposal block hashing to the polka, an unlock needs a polka for nil or another block, and a precommit for a block is emitted only for the polka block which is then the locked block of this round; in addVote an unlock needs a prevote polka of a round in (LockedRound, Round] for something else; defaultDoPrevote emits exactly one prevote: the locked block if locked, else the proposal block only if it validates; enterCommit is entered from addVote only on a +2/3 precommit majority for a block in the vote's round; finalizeCommit saves/applies only that block; signAddVote queues a vote only if the signer agreed.",
+   note="Assumed: preservation of the light consensus-state invariant wfCS by enterNewRound/enterPropose/enterPrevote/enterPrevoteWait/enterPrecommitWait/enterCommit/updateToState (trusted contracts: their bodies are not examined, only their write sites through the structural writers check); function-valued hooks (doPrevote, setProposal, decideProposal) hold the default methods; events/logging assign nothing; no concurrency; the cross-round/temporal reading of the property (\"in every later round\") follows from these per-call rules by the argument in design/C01-argument.md.",
+   ref="6 (C04)"),
+ 'C08': dict(
+   text="Proof level (absence of panics and state-preservation on rejection) for the consensus peer-input surface: handleMsg -> defaultSetProposal / addProposalBlockPart / tryAddVote -> addVote -> HeightVoteSet.AddVote -> VoteSet.AddVote/addVote/addVerifiedVote, PartSet.AddPart, Merkle proof verification, Block.ValidateBasic/ValidateCommit, Commit accessors, VerifyCommit, every BitArray operation used on peer-supplied arrays, and the per-peer gossip state updates (Apply*Message, SetHasProposal): implicit safety obligations (nil, index, slice, make, division, type assertion, explicit panics) for fully symbolic messages; rejected votes/proposals leave the round state unchanged; block decoding only from a complete part set with the size limit; part-count bounds before allocation; structural check that the connection goroutines recover.",
+   note="Assumed: object invariants at method entry (vote sets, part sets, peer state); reflective decoder (wire.ReadBinary) does not panic; trusted enterX contracts as in C04; one obligation is undecided and not claimed (BitArray.PickRandom's unreachable panic needs bit-precise reasoning). Not covered: mempool/pex/blockchain reactors' Receive bodies, liveness (\"wedge\").",
+   ref="6 (C08)"),
  'C03': dict(
    text="Proof level: every obligation generated from the contracts of the signer path is discharged on every run. signBytesHRS: signs only for a strictly later height/round/step, or re-releases the stored signature for byte-identical sign-bytes at the same step; releases nothing and leaves the durable record unchanged on error; the record (ghost dur*) equals the released signature before it is returned; memory equals the durable record. SignVote/SignProposal pass exactly (height, round, step(type), canonical sign bytes) and write the signature into the object only on success. save/WriteFileAtomic are verified against a ghost file system (rename last; error leaves the file untouched).",
    note="Assumed: os.Rename atomic and durable; ioutil.WriteFile/ReadFile as specified in contracts/std.spec; the JSON codec of the signer file round-trips (trusted-ensures on save links the file to the ghost record); Signer.Sign returns non-nil; no concurrency (mutex not modelled); real process kill points inside a write are outside.",
